@@ -44,6 +44,13 @@ func monC05(c *runCtx) {
 		root := filepath.Join(w, ".goit")
 		os.MkdirAll(filepath.Join(root, "objects"), 0o777)
 		names := gen.NameSet(c.rng, gen.NameOpts{Space: true, NonASCII: i%3 == 0, MaxDepth: 4, N: 2 + c.rng.IntN(6)})
+		if i%40 == 7 {
+			// a directory whose tree object is larger than 4 KiB
+			n := 105 + c.rng.IntN(80)
+			for j := 0; j < n; j++ {
+				names = append(names, fmt.Sprintf("bigdir/e%03d%s", j, strings.Repeat("q", (j*5+i)%27)))
+			}
+		}
 		want := map[string]string{}
 		idClass := "random"
 		// systematic part: case i puts special byte specials[i%3] at position (i/3)%20 of the first id
